@@ -387,7 +387,7 @@ def main(tier, replay=None):
         print("replay:", "still failing code=%s" % bad[0][1] if bad else "passes now", logs)
         print("observed now:", Impl(case[0], case[1]).run(case[2], case[3]))
         return 1 if bad else 0
-    chk.proofs()
+    chk.proofs(extra_targets=["Corr/KLCorr.vo"])
     cases = generate(chk.rng, tier)
     bad, logs = evaluate(cases)
     hist = {}
